@@ -79,6 +79,10 @@ type Case struct {
 	Extra    []NodeSpec `json:"extra"`     // non-tree nodes added in the "more non-tree" variant (tree types are stripped)
 	AddrSalt string     `json:"addr_salt"` // addresses of the "other addresses" variant are derived from this
 	Groups   []IdGroup  `json:"groups"`
+	// Epoch of the final configuration and of the version live-update participants start on
+	// (equal, including 0 = network without epoch support, or bumped by the update)
+	Epoch   uint64 `json:"epoch"`
+	EpochV1 uint64 `json:"epoch_v1"`
 }
 
 const noDot = "<none>"
@@ -121,12 +125,20 @@ func (s *stubConf) GetNodeConfUpdateInterval() int      { return 3600 }
 type stubSource struct {
 	next *nodeconf.Configuration // delivered once, then "not changed"
 	err  error                   // != nil: the source is unreachable
+	gate chan struct{}           // != nil: answers only after the gate is closed (live update under harness control)
 	mu   sync.Mutex
 }
 
 func (s *stubSource) Init(*app.App) error { return nil }
 func (s *stubSource) Name() string        { return nodeconf.CNameSource }
-func (s *stubSource) GetLast(_ context.Context, currentId string) (nodeconf.Configuration, error) {
+func (s *stubSource) GetLast(ctx context.Context, currentId string) (nodeconf.Configuration, error) {
+	if s.gate != nil {
+		select {
+		case <-s.gate:
+		case <-ctx.Done():
+			return nodeconf.Configuration{}, ctx.Err()
+		}
+	}
 	s.mu.Lock()
 	defer s.mu.Unlock()
 	if s.err != nil {
@@ -232,9 +244,10 @@ func staleConf(conf nodeconf.Configuration, self string) nodeconf.Configuration 
 // previousVersion is a configuration with the same peer ids in the same order as conf, other
 // addresses and - if roles is set - other roles: every second peer (by first appearance)
 // loses the tree role if it has it, gains it otherwise.
-func previousVersion(conf nodeconf.Configuration, roles bool) nodeconf.Configuration {
+func previousVersion(conf nodeconf.Configuration, roles bool, epoch uint64) nodeconf.Configuration {
 	v1 := cloneConf(conf)
 	v1.Id = conf.Id + "-v1"
+	v1.Epoch = epoch
 	order := map[string]int{}
 	isTreePeer := map[string]bool{}
 	for _, n := range conf.Nodes {
@@ -271,7 +284,19 @@ func previousVersion(conf nodeconf.Configuration, roles bool) nodeconf.Configura
 // newParticipant starts a real nodeconf service for account `self` that ends up with
 // configuration conf (possibly enriched with bootstrap coordinator entries, which are not
 // sync nodes), delivered by the given route.
-func newParticipant(self string, conf nodeconf.Configuration, route int) (*participant, error) {
+// liveOpts controls the live-update routes: the epoch of the version the participant starts
+// on, and a hook that questions the participant while it still runs that version (before the
+// source is allowed to deliver the final configuration).
+type liveOpts struct {
+	epochV1 uint64
+	pre     func(p *participant, v1 nodeconf.Configuration) error
+}
+
+func newParticipant(self string, conf nodeconf.Configuration, route int, live *liveOpts) (*participant, error) {
+	if live == nil {
+		live = &liveOpts{}
+	}
+	var v1 nodeconf.Configuration
 	p := &participant{id: self, svc: nodeconf.New(), a: new(app.App)}
 	cfg := &stubConf{c: cloneConf(conf)}
 	src := &stubSource{}
@@ -289,8 +314,9 @@ func newParticipant(self string, conf nodeconf.Configuration, route int) (*parti
 		src.next = &c
 		waitUpdate = true
 	case route >= 12: // live update from a version with the same peer ids and order
-		v1 := previousVersion(conf, route != 14)
+		v1 = previousVersion(conf, route != 14, live.epochV1)
 		cfg.c = v1
+		src.gate = make(chan struct{})
 		if route == 13 {
 			st := cloneConf(v1)
 			store.last = &st
@@ -349,6 +375,19 @@ func newParticipant(self string, conf nodeconf.Configuration, route int) (*parti
 	p.a.Register(cfg).Register(acc).Register(src).Register(store).Register(stubChecker{}).Register(p.svc)
 	if err := p.a.Start(context.Background()); err != nil {
 		return nil, fmt.Errorf("start nodeconf for %s: %w", self, err)
+	}
+	if src.gate != nil {
+		if got := p.svc.Id(); got != v1.Id {
+			p.close()
+			return nil, fmt.Errorf("participant %s (route %d) runs configuration %q before the update, want %q", self, route, got, v1.Id)
+		}
+		if live.pre != nil {
+			if err := live.pre(p, v1); err != nil {
+				p.close()
+				return nil, err
+			}
+		}
+		close(src.gate)
 	}
 	if waitUpdate {
 		select {
@@ -596,6 +635,7 @@ func run(c Case) (vstat.Outcome, error) {
 	}
 	ents := entries(c)
 	conf := buildConf("c18-conf", c.IdStyle, ents)
+	conf.Epoch = c.Epoch
 	rf := nodeconf.ReplicationFactor
 
 	// a peer is a sync node if ANY of its entries carries the tree role
@@ -642,15 +682,50 @@ func run(c Case) (vstat.Outcome, error) {
 		return 0
 	}
 	routesUsed := map[int]bool{}
+	// live-update participants are questioned while they still run v1: the ids asked are the
+	// first id of every group (so that after the update the same keys are asked again and the
+	// remaining ids are asked for the first time); answers are judged against a participant
+	// started fresh on v1.
+	v1Refs := map[string]*participant{}
+	preAsked := 0
+	live := &liveOpts{epochV1: c.EpochV1}
+	defer func() {
+		for _, r := range v1Refs {
+			r.close()
+		}
+	}()
+	live.pre = func(p *participant, v1 nodeconf.Configuration) error {
+		kind := fmt.Sprint(v1.Nodes) // role-changed and address-only v1 differ here
+		ref := v1Refs[kind]
+		if ref == nil {
+			var err error
+			if ref, err = newParticipant(peerId(c.IdStyle, clientPoolIdx), v1, 0, nil); err != nil {
+				return fmt.Errorf("v1 reference: %w", err)
+			}
+			v1Refs[kind] = ref // closed at the end of the case (not in parts: parts[i] is node i)
+		}
+		for _, g := range c.Groups {
+			id := groupIds(g)[0]
+			ra, a := ask(ref, id), ask(p, id)
+			if want := without(ra.ids, p.id); !eq(a.ids, want) || len(a.raw) != len(want) {
+				return fmt.Errorf("before the update, id %q: participant %s NodeIds = %v, a participant started on the same version has responsible set %v", id, p.id, a.raw, ra.ids)
+			}
+			if a.resp != contains(ra.ids, p.id) || a.part != ra.part {
+				return fmt.Errorf("before the update, id %q: participant %s IsResponsible=%v Partition=%d, responsible set %v partition %d", id, p.id, a.resp, a.part, ra.ids, ra.part)
+			}
+			preAsked++
+		}
+		return nil
+	}
 	for i, n := range c.Nodes {
-		p, err := newParticipant(peerId(c.IdStyle, n.Id), conf, routeOf(i))
+		p, err := newParticipant(peerId(c.IdStyle, n.Id), conf, routeOf(i), live)
 		if err != nil {
 			return out, err
 		}
 		routesUsed[routeOf(i)] = true
 		parts = append(parts, p)
 	}
-	client, err := newParticipant(peerId(c.IdStyle, clientPoolIdx), conf, routeOf(len(c.Nodes)))
+	client, err := newParticipant(peerId(c.IdStyle, clientPoolIdx), conf, routeOf(len(c.Nodes)), live)
 	if err != nil {
 		return out, err
 	}
@@ -664,7 +739,7 @@ func run(c Case) (vstat.Outcome, error) {
 	}
 	var variants []variant
 	addVariant := func(name string, nodes []NodeSpec) error {
-		p, err := newParticipant(peerId(c.IdStyle, clientPoolIdx), buildConf("c18-"+name, c.IdStyle, nodes), 0)
+		p, err := newParticipant(peerId(c.IdStyle, clientPoolIdx), buildConf("c18-"+name, c.IdStyle, nodes), 0, nil)
 		if err != nil {
 			return fmt.Errorf("variant %s: %w", name, err)
 		}
@@ -823,6 +898,12 @@ func run(c Case) (vstat.Outcome, error) {
 	}
 	if routesUsed[12] || routesUsed[13] {
 		classes["route-live-update-role-change"] = true
+		if preAsked > 0 && c.Epoch == c.EpochV1 {
+			classes["live-update-same-epoch-key-asked-before"] = true
+		}
+		if preAsked > 0 && c.Epoch != c.EpochV1 {
+			classes["live-update-epoch-bumped-key-asked-before"] = true
+		}
 	}
 	if routesUsed[14] {
 		classes["route-live-update-address-change"] = true
@@ -911,6 +992,7 @@ func enumerate(yield func(Case) bool) {
 				c.Routes = append(c.Routes, (idx+5*i)%nRoutes)
 			}
 			c.Routes = append(c.Routes, (idx+7)%nRoutes)
+			c.Epoch, c.EpochV1 = [][2]uint64{{0, 0}, {4, 4}, {2, 1}, {3, 0}}[idx%4][0], [][2]uint64{{0, 0}, {4, 4}, {2, 1}, {3, 0}}[idx%4][1]
 			switch idx % 4 {
 			case 1: // the tree role (if any) sits in a second entry at the end of the list
 				c.Splits = []Split{{Node: idx % len(cur), Types: []string{"coordinator"}, Addrs: []string{"split:1"}, TakeTree: true}}
@@ -991,6 +1073,8 @@ func genCase(rt *rapid.T) Case {
 	for i := 0; i < ne; i++ {
 		c.Extra = append(c.Extra, genNode(rt))
 	}
+	ep := rapid.SampledFrom([][2]uint64{{0, 0}, {0, 0}, {7, 7}, {2, 1}, {5, 0}}).Draw(rt, "epochs")
+	c.Epoch, c.EpochV1 = ep[0], ep[1]
 	ns := rapid.SampledFrom([]int{0, 0, 1, 1, 2, 3}).Draw(rt, "nSplits")
 	for i := 0; i < ns; i++ {
 		c.Splits = append(c.Splits, Split{
